@@ -93,6 +93,8 @@ class PaneBase:
     def __class_getitem__(cls, params: t.Union[type, t.Tuple[type, ...]]):
         if not isinstance(params, tuple):
             params = (params,)
+        # as in typing, `None` stands for `NoneType`
+        params = tuple(type(None) if p is None else p for p in params)
         return _make_subclass(cls, params)
 
     def __repr__(self) -> str:
